@@ -262,6 +262,22 @@ def run_check(args):
             if not c.verify and prop in c.prop.split(","):
                 trusted.append("assumed (not verified) contract: %s:%s %s" % (c.rel, c.qual, c.note))
     n_known = len(known)
+    # mechanical scan of the contract modules of this property for every construct that introduces an unchecked
+    # assumption (so the list above cannot silently drift away from the contract text)
+    scan = {}
+    try:
+        import contracts as _cm
+        for modname in _cm.PROPS.get(prop, []):
+            path = os.path.join(VERIF, "contracts", modname + ".py")
+            with open(path) as f:
+                text = f.read()
+            scan[modname] = {k: len(re.findall(pat, text)) for k, pat in (
+                ("E.assume( in externals/spec functions", r"\bE\d?\.assume\("), ("assumes= clauses", r"\bassumes="),
+                ("verify=False contracts", r"verify=False"), ("@external definitions", r"@external\("),
+                ("opaque_method / opaque_callable", r"opaque_(method|callable)\("),
+                ("REG.assume_note texts", r"assume_note\("), ("direct pc.append", r"\.pc\.append\("))}
+    except Exception as ex:
+        scan = {"error": repr(ex)}
     cov = {
         "obligations": total - n_known,
         "discharged": discharged,
@@ -289,6 +305,7 @@ def run_check(args):
                                     len(unknown), n_known, canary_total, backends, solver_s, native_evals,
                                     native_distinct, len(trusted)),
         "known_findings_reported": [kf.get("id") for kf, _ in known],
+        "assumption_scan": scan,
     }
     if native_evals > 0:
         cov["evaluations"] = native_evals
